@@ -1103,7 +1103,23 @@ impl<'a> Oracle<'a> {
                 let s = match unhex(h) { Some(s) => s, None => return "SKIP".to_string() };
                 let mut b = purr::graph::Builder::new();
                 match catch_unwind(AssertUnwindSafe(|| read(&s, &mut b, None))) {
-                    Ok(Ok(())) => match b.build() { Ok(g) => self.c03_graph(g, &format!("graph of {:?}", s)), Err(_) => "SKIP".to_string() },
+                    Ok(Ok(())) => match b.build() {
+                        Ok(g) => {
+                            // a directional bond of the built graph must point one way: `/` seen from one atom is `\` seen from the other
+                            for (a, atom) in g.iter().enumerate() {
+                                for bd in atom.bonds.iter() {
+                                    if !bd.is_directional() || bd.tid >= g.len() { continue }
+                                    let backs: Vec<&Bond> = g[bd.tid].bonds.iter().filter(|x| x.tid == a).collect();
+                                    if backs.len() == 1 && backs[0].kind != bd.kind.reverse() {
+                                        return fail(format!("{:?} builds a graph whose directional bond {}-{} is {:?} seen from atom {} and {:?} seen from atom {}: its direction relative to the two atoms is lost",
+                                            s, a, bd.tid, bd.kind, a, backs[0].kind, bd.tid))
+                                    }
+                                }
+                            }
+                            self.c03_graph(g, &format!("graph of {:?}", s))
+                        }
+                        Err(_) => "SKIP".to_string(),
+                    },
                     _ => "SKIP".to_string(),
                 }
             }
@@ -1154,6 +1170,55 @@ impl<'a> Oracle<'a> {
             _ => "SKIP".to_string(),
         }
     }
+}
+
+// ------------------------------------------------------------------------------------------
+// soak: the whole pipeline on one (large) accepted string, with the graph-level claims of C02, C01, C12 and C14 checked
+// at that size (all helpers here are loops, so the check itself needs no stack)
+
+/// read -> build (compared with the independent interpreter: C02) -> walk -> write -> read -> build (isomorphic under
+/// the depth-first order: C01; the arrival bond moved to the front and nothing else: C12) -> walk -> write (same text: C14)
+pub fn soak_check(s: &str) -> Result<usize, String> {
+    let t = Tables::new();
+    let orc = Oracle::new(&t, "C01");
+    let build = |s: &str, what: &str| -> Result<Vec<purr::graph::Atom>, String> {
+        let mut b = purr::graph::Builder::new();
+        read(s, &mut b, None).map_err(|e| format!("{}: {:?}", what, e))?;
+        b.build().map_err(|e| format!("{} build: {:?}", what, e))
+    };
+    let g = build(s, "read")?;
+    let atoms = g.len();
+    // C02 at this size
+    let chars: Vec<char> = s.chars().collect();
+    if let Some(tks) = tokenise(&chars) {
+        if let Some(Ok((ref_atoms, _, _))) = denote(&t, &chars, &tks) {
+            if ref_atoms.len() != g.len() { return Err(format!("{} atom tokens, {} atoms built", ref_atoms.len(), g.len())) }
+            for (i, a) in g.iter().enumerate() {
+                let got: Vec<(usize, usize)> = a.bonds.iter().map(|x| (bond_s(&t, &x.kind).parse().unwrap(), x.tid)).collect();
+                if got != ref_atoms[i].bonds {
+                    let show = |v: &Vec<(usize, usize)>| if v.len() > 6 { format!("{:?}.. ({} bonds)", &v[..6], v.len()) } else { format!("{:?}", v) };
+                    return Err(format!("atom {} has bond list {} (kind, target), the string denotes {}", i, show(&got), show(&ref_atoms[i].bonds)))
+                }
+                if kind_s(&t, &a.kind) != ref_atoms[i].kind { return Err(format!("atom {} is built as {}, its token denotes {}", i, kind_s(&t, &a.kind), ref_atoms[i].kind)) }
+            }
+        } else {
+            return Err("the string builds but the independent interpreter finds an unmatched / irreconcilable / duplicate ring closure".to_string())
+        }
+    }
+    // C01 at this size
+    let (order, _) = dfs_order(&g);
+    let mut pi = vec![0usize; g.len()];
+    for (i, a) in order.iter().enumerate() { pi[*a] = i }
+    let rt = orc.round_trip(build(s, "second read")?)?;
+    orc.iso_under(&g, &rt.g2, &pi).map_err(|m| format!("round trip of {} atoms: {}", atoms, m))?;
+    // C14 at this size
+    let copy = build(&rt.text, "re-read")?;
+    let rt2 = orc.round_trip(copy)?;
+    if rt2.text != rt.text {
+        let at = rt.text.chars().zip(rt2.text.chars()).position(|(a, b)| a != b).unwrap_or(rt.text.len().min(rt2.text.len()));
+        return Err(format!("the written text ({} characters) is not a fixed point: writing its own graph differs from character {}", rt.text.len(), at))
+    }
+    Ok(atoms)
 }
 
 // ------------------------------------------------------------------------------------------
